@@ -3,6 +3,7 @@
 #include <fcntl.h>
 #include <signal.h>
 #include <stdlib.h>
+#include <sys/time.h>
 #include <sys/wait.h>
 #include <time.h>
 #include <unistd.h>
@@ -25,8 +26,13 @@ int eng_fork_run(void (*fn)(void *), void *ud, const char *stderr_path, int time
     if (fd >= 0) { dup2(fd, 2); close(fd); }
     int nul = open("/dev/null", O_WRONLY);
     if (nul >= 0) { dup2(nul, 1); close(nul); }
+    /* the run's time limit is CPU time of the child (independent of machine load); the wall-clock alarm, ten times larger,
+       only catches a child that sleeps */
     signal(SIGALRM, SIG_DFL);
-    alarm((unsigned)timeout_s);
+    signal(SIGVTALRM, SIG_DFL);
+    struct itimerval itv = { { 0, 0 }, { timeout_s, 0 } };
+    setitimer(ITIMER_VIRTUAL, &itv, NULL);
+    alarm((unsigned)timeout_s * 10u);
     simlog_reset();     /* the run's event log starts here: nothing of the worker's earlier runs may enter it */
     heap_log_rebase();
     fn(ud);
